@@ -327,6 +327,7 @@ func c06Oracle(c *oracleCtx) {
 	everyStorePath(c)
 	typedNativeNils(c)
 	removalKeepsChildren(c)
+	zeroArgVariadics(c)
 	c.rule = "operation sequences on a pool of live objects (3 pools incl. empty key, shared nested containers, duplicate keys), every object compared with a map model after every step (Get/KeyExists/TypeOf/Keys/Values/Dict/Count), exact panics; distinct = distinct sequences"
 	if c.filter != nil {
 		for id := range c.filter {
@@ -1148,8 +1149,68 @@ func removalKeepsChildren(c *oracleCtx) {
 	}
 }
 
+// nanIsFloat: NaN is a float64 like any other: stored as the float kind by every entry point
+func nanIsFloat(c *oracleCtx) {
+	c.check("nan-is-a-float", true, func() string {
+		nan := math.NaN()
+		isNaN := func(v any) bool { f, ok := v.(float64); return ok && math.IsNaN(f) }
+		ls := map[string]List{"NewList": NewList(nan), "Add": NewList().Add(nan), "Insert": NewList(1.5).Insert(0, nan).Delete(1), "Replace": NewList(1).Replace(0, nan), "NewListOf": NewListOf(nan, 1),
+			"NewListFrom[]float64": NewListFrom([]float64{nan}), "NewListFrom[]any": NewListFrom([]any{nan}), "float32": NewList(float32(nan)), "SetTF": NewList().SetTF("#0", nan)}
+		for name, l := range ls {
+			if l.TypeOf(0) != TypeFloat || !isNaN(l.Get(0)) || !math.IsNaN(l.GetFloat(0)) || !l.AllFloats() || len(l.FloatSlice()) != 1 {
+				return name + ": NaN is not stored as a float"
+			}
+		}
+		os := map[string]Object{"NewObject": NewObject("k", nan), "Set": NewObject().Set("k", nan), "From[float64]": NewObjectFrom(map[string]float64{"k": nan}), "From[any]": NewObjectFrom(map[string]any{"k": nan}), "SetTF": NewObject().SetTF(".k", nan)}
+		for name, o := range os {
+			if o.TypeOf("k") != TypeFloat || !isNaN(o.Get("k")) || !math.IsNaN(o.GetFloat("k")) {
+				return name + ": NaN is not stored as a float"
+			}
+		}
+		return ""
+	})
+}
+
+// zeroArgVariadics: a variadic mutator called without arguments is inside its documented domain: nothing changes,
+// nothing panics, the receiver is returned
+func zeroArgVariadics(c *oracleCtx) {
+	c.check("zero-arg-variadics", true, func() string {
+		for _, l := range []List{NewList(), NewList(1), NewList(1, "x", NewList(2), nil), NewListOf(0, 9).Delete(0, 1, 2), NewList(1, 2, 3).SubList(1, 3)} {
+			before := l.String()
+			var r1, r2 List
+			if catch(func() { r1 = l.Delete() }) || catch(func() { r2 = l.Add() }) {
+				return "Delete() / Add() without arguments panics on " + before
+			}
+			if r1 != l || r2 != l || l.String() != before {
+				return "Delete() / Add() without arguments changes " + before + " or does not return the receiver"
+			}
+			var idx []int
+			var vals []any
+			if catch(func() { l.Delete(idx...); l.Add(vals...) }) || l.String() != before {
+				return "Delete(none...) / Add(none...) is not a no-op on " + before
+			}
+		}
+		for _, o := range []Object{NewObject(), NewObject("a", 1), NewObject("a", NewList(1), "", nil)} {
+			n := o.Count()
+			var r1, r2 Object
+			var p Object
+			if catch(func() { r1 = o.Set() }) || catch(func() { r2 = o.Unset() }) || catch(func() { p = o.Pluck() }) {
+				return "Set() / Unset() / Pluck() without arguments panics"
+			}
+			if r1 != o || r2 != o || o.Count() != n || p == o || p.Count() != 0 {
+				return "Set() / Unset() / Pluck() without arguments changes the object, does not return the receiver, or Pluck() is not a new empty object"
+			}
+		}
+		if NewList().Count() != 0 || NewObject().Count() != 0 || NewListFrom([]any{}).Count() != 0 || NewObjectFrom(map[string]any{}).Count() != 0 {
+			return "a constructor without content does not give an empty container"
+		}
+		return ""
+	})
+}
+
 func c12Oracle(c *oracleCtx) {
 	rawStrings(c, "both")
+	nanIsFloat(c)
 	everyStorePath(c)
 	typedNativeNils(c)
 	c.rule = "values of every supported dynamic type at range boundaries through every insertion entry point; Get type, TypeOf, exactly one typed getter; unsupported types rejected without being stored"
@@ -1162,7 +1223,7 @@ func c12Oracle(c *oracleCtx) {
 		{"int8-min", int8(-128), -128}, {"int8-max", int8(127), 127}, {"int16", int16(-32768), -32768}, {"int32", int32(math.MaxInt32), math.MaxInt32},
 		{"int64-min", int64(math.MinInt64), math.MinInt64}, {"uint8-200", uint8(200), 200}, {"uint8-255", uint8(255), 255}, {"uint16-40000", uint16(40000), 40000},
 		{"uint32-3e9", uint32(3000000000), 3000000000}, {"uint64-maxint", uint64(math.MaxInt64), math.MaxInt64}, {"uint-maxint", uint(math.MaxInt), math.MaxInt},
-		{"uint-0", uint(0), 0}, {"f32-0.1", float32(0.1), float64(float32(0.1))}, {"f32-sub", float32(1e-45), float64(float32(1e-45))}, {"f64", 2.5, 2.5},
+		{"uint-0", uint(0), 0}, {"f32-0.1", float32(0.1), float64(float32(0.1))}, {"f32-sub", float32(1e-45), float64(float32(1e-45))}, {"f64", 2.5, 2.5}, {"f64-inf", math.Inf(1), math.Inf(1)}, {"f64-ninf", math.Inf(-1), math.Inf(-1)}, {"f32-inf", float32(math.Inf(1)), math.Inf(1)}, {"f64-max", math.MaxFloat64, math.MaxFloat64},
 		{"str", "x", "x"}, {"str-latin1", "caf\xe9", "caf\xe9"}, {"str-ff", "\xff", "\xff"}, {"str-cut", "\xe2\x82", "\xe2\x82"}, {"str-surrogate", "\xed\xa0\x80", "\xed\xa0\x80"}, {"bool", true, true}, {"nil", nil, nil}, {"int", -5, -5},
 	}
 	c.bound = fmt.Sprintf("%d scalar boundary values x 9 entry points, 14 native flavours, 25 unsupported types (defined types over every scalar kind, pointers, arrays, funcs, channels), %d raw byte strings through every entry point", len(cases), len(rawStrs))
@@ -1264,7 +1325,8 @@ func c12Oracle(c *oracleCtx) {
 		c.check(fmt.Sprintf("unsupported:%d", i), true, func() string {
 			l := NewList(1, 2)
 			o := NewObject("a", 1)
-			if !catch(func() { l.Add(u) }) || !catch(func() { l.Insert(1, u) }) || !catch(func() { l.Replace(0, u) }) || !catch(func() { o.Set("k", u) }) || !catch(func() { NewList(u) }) {
+			if !catch(func() { l.Add(u) }) || !catch(func() { l.Insert(1, u) }) || !catch(func() { l.Replace(0, u) }) || !catch(func() { o.Set("k", u) }) || !catch(func() { NewList(u) }) ||
+				!catch(func() { NewListOf(u, 0) }) || !catch(func() { NewListOf(u, 2) }) || !catch(func() { l.SetTF("#0", u) }) || !catch(func() { o.SetTF(".k", u) }) || !catch(func() { NewObject("k", u) }) {
 				return "unsupported value accepted"
 			}
 			if l.Count() != 2 || l.GetInt(0) != 1 || l.GetInt(1) != 2 || o.Count() != 1 {
